@@ -346,6 +346,7 @@ class Driver:
         self.rec = rec
         # optimize=1: the script compiled the way `python -O batchie.py` (or PYTHONOPTIMIZE=1 in the job environment)
         # runs it - assert statements are stripped
+        self.optimize = optimize
         self.orch = repoimport.load_orchestrator("orch_c19", optimize=optimize)
         self.script = self.orch.__file__
         self.sim = None
@@ -384,7 +385,11 @@ class Driver:
         o.os = proxy
 
     def invoke(self, sim):
-        """one invocation of the script's main()"""
+        """one invocation of the script's main() - in a real deployment a new process: module-level state of the
+        script (caches, counters) does not survive from one invocation to the next, so the module is executed afresh"""
+        self.sim = None  # (no failpoints while the module body runs: nothing on disk is touched before main())
+        self.orch = repoimport.load_orchestrator("orch_c19", optimize=self.optimize)
+        self.bind(sim)
         sim.operator_brings_lab_results()
         screen_arg, out_arg = sim.screen, sim.outdir
         cwd0 = os.getcwd()
@@ -572,6 +577,26 @@ def judge_reference(rec, cfg, ref, w):
             rec.violation(key + "/step-skipped-or-missing", "the uninterrupted run launched step %r where step %r is due" % (l["step"], expected), w)
             return
         expected = (expected[0], expected[1] + 1) if expected[1] + 1 < b else (expected[0] + 1, 0)
+    # the plates of one batch are chosen with the model trained at the start of THAT batch: within an iteration every
+    # later step reads one and the same set of posterior-sample / distance files, and no two iterations share theirs
+    # (each iteration's model is trained on another training screen)
+    model_of = {}
+    for l in ref["launches"]:
+        sg = l.get("sig") or {}
+        if sg.get("mode") == "next_plate" and "thetas" in sg:
+            m_ = (tuple(sg["thetas"]), tuple(sg.get("distance_matrix", ())))
+            it_ = l["step"][0]
+            if it_ in model_of and model_of[it_] != m_:
+                rec.violation(key + "/step-launched-with-another-model", "the uninterrupted run launched step %r with other posterior-sample / distance files than the earlier steps of its batch" % (l["step"],), w)
+                return
+            model_of[it_] = m_
+    seen_ = {}
+    for it_, m_ in sorted(model_of.items()):
+        if m_ in seen_:
+            rec.violation(key + "/step-launched-with-another-model", "the uninterrupted run chose the later plates of iteration %d with the model files of iteration %d" % (it_, seen_[m_]), w)
+            return
+        seen_[m_] = it_
+    rec.count("uninterrupted_runs_whose_models_were_compared_across_iterations", int(len(model_of) >= 2))
     for d in ref["deletions"]:
         p = d["path"].split(os.sep)
         hit = [s for s in d["completed_at_that_time"] if (len(p) >= 2 and p[0] == "iter_%d" % s[0] and p[1] == "plate_%d" % s[1]) or (len(p) == 1 and p[0] == "iter_%d" % s[0]) or p == ["."]]
